@@ -158,6 +158,38 @@ def run(ctx, rep):
             else:
                 rep.ok("R02.3", "replay loop body", "each record is applied exactly once; an apply error leaves the loop (Err return)", where=g.where(nn))
 
+    r02_4(ctx, rep)
+    go = ctx.graph(ctx.body_key(r"RaftLog::<T>::open$"))
+    Po = ctx.product(ctx.body_key(r"RaftLog::<T>::open$"))
+
+    # ---------------- R02.5 / R02.6 -------------------------------------------------------
+    sub = _Only(rep, "R01.3", "R02.5/", only_site="State")
+    c01.run_tables_only(ctx, sub) if hasattr(c01, "run_tables_only") else None
+    c12.run(ctx, _Filter(rep, keep=("R12.3",), rename="R02.5/"))
+    c10.run(ctx, _Filter(rep, keep=("R10.4",), rename="R02.6/"))
+    c05.run(ctx, _Filter(rep, keep=("R05.3",), rename="R02.6/"))
+
+    # ---------------- R02.8 -------------------------------------------------------------
+    rep.rule("R02.8", "= C04's R04.1/R04.7/R04.9: 'flushed and acknowledged' means handed to the worker, written and synced")
+    import c04
+    c04.run(ctx, _Filter(rep, keep=("R04.1", "R04.7", "R04.9"), rename="R02.8/"))
+
+    # ---------------- R02.7 -------------------------------------------------------------
+    ga = ctx.graph(ctx.body_key(APPLY_KEY))
+    cfg_in_apply = [i.key for i in ga.insts if re.search(r"config::Config::", i.key)]
+    if cfg_in_apply:
+        rep.violation("R02.7", "apply|reads-config:%s" % short_key(cfg_in_apply[0]), "StateMachine::apply",
+                      "the transition function reads the configuration (%s): replay under a different configuration gives a different state" % cfg_in_apply[:2])
+    else:
+        rep.ok("R02.7", "StateMachine::apply reads no Config getter", "")
+    lim = [i.key for i in go.insts if re.search(r"config::Config::chunk_max_(records|size)$", i.key) and any(n[0] == i.id for n in Po.live)]
+    if lim:
+        rep.violation("R02.7", "open|reads-chunk-limits", "RaftLog::open", "replay consults the chunk limits (%s): the recovered state depends on the new configuration" % lim[:2])
+    else:
+        rep.ok("R02.7", "open does not read chunk_max_records / chunk_max_size", "")
+
+
+def r02_4(ctx, rep):
     # ---------------- R02.4 -------------------------------------------------------------
     creators = {b["key"] for b, bi, t in ctx.all_calls(r"fs::OpenOptions::create_new$")}
     for key in [k for k in ctx.write_entries() if not k.endswith("::flush")]:
@@ -218,26 +250,6 @@ def run(ctx, rep):
                 rep.violation("R02.4", "open|head-snapshot", "open: head snapshot", "the fresh chunk created by open does not start with the replayed state: %s" % (expr_s(v)[:60] if v else "?"),
                               where=go.where(n))
 
-    # ---------------- R02.5 / R02.6 -------------------------------------------------------
-    sub = _Only(rep, "R01.3", "R02.5/", only_site="State")
-    c01.run_tables_only(ctx, sub) if hasattr(c01, "run_tables_only") else None
-    c12.run(ctx, _Filter(rep, keep=("R12.3",), rename="R02.5/"))
-    c10.run(ctx, _Filter(rep, keep=("R10.4",), rename="R02.6/"))
-    c05.run(ctx, _Filter(rep, keep=("R05.3",), rename="R02.6/"))
-
-    # ---------------- R02.7 -------------------------------------------------------------
-    ga = ctx.graph(ctx.body_key(APPLY_KEY))
-    cfg_in_apply = [i.key for i in ga.insts if re.search(r"config::Config::", i.key)]
-    if cfg_in_apply:
-        rep.violation("R02.7", "apply|reads-config:%s" % short_key(cfg_in_apply[0]), "StateMachine::apply",
-                      "the transition function reads the configuration (%s): replay under a different configuration gives a different state" % cfg_in_apply[:2])
-    else:
-        rep.ok("R02.7", "StateMachine::apply reads no Config getter", "")
-    lim = [i.key for i in go.insts if re.search(r"config::Config::chunk_max_(records|size)$", i.key) and any(n[0] == i.id for n in Po.live)]
-    if lim:
-        rep.violation("R02.7", "open|reads-chunk-limits", "RaftLog::open", "replay consults the chunk limits (%s): the recovered state depends on the new configuration" % lim[:2])
-    else:
-        rep.ok("R02.7", "open does not read chunk_max_records / chunk_max_size", "")
 
 
 def c11_unfield(e):
